@@ -29,7 +29,7 @@ from . import c11
 
 MODULES = ["ESV.Props.C12"]
 THEOREMS = ["ESV.C12.interleave_safe", "ESV.C12.interleave_safe_start", "ESV.C12.interleave_no_keyerror",
-            "ESV.C12.interleave_stale_counterexample"]
+            "ESV.C12.interleave_sequential", "ESV.C12.interleave_sequential_finished", "ESV.C12.interleave_stale_counterexample"]
 THREADS = "harness.impl_cache:run_threads"
 
 
